@@ -115,6 +115,7 @@ PROPS["C12"] = {
     "verus_units": ["heap", "usersum", "closures", "upvalues", "mirgen_rc"],
     "replay": "boxed",
     "replay_units": ["usersum"],
+    "replay_by_unit": {"mirgen_rc": ["boxed"]},
     "kani_units": [RUNTIME_C12],
     "floor": {"obligations": 62},
     "trusted_base": [
